@@ -31,6 +31,16 @@ CLAIMED = {
    text=('Theorems for all D: the descending _mul loop with out aliasing x, y or both computes the Cauchy product of the original operands; the in-place product x *= y equals x * y (on the repaired '
          'code, so x *= x == x * x); counterexample theorem for the unrepaired loop; division forms build their result in a temporary. That public operations leave arguments untouched and that '
          'recording/reverse sweep leave inputs and seeds untouched is checked by byte comparison over all registered operations (partial: no theorem).')),
+ 'C15': dict(
+   technique='Lean 4: kernel evaluation (decide +kernel, no axioms) of the Gamma identity over Rat for a table of (N,d) + enumeration theorems for all N,d; exhaustive correspondence',
+   text=('Theorems: for all N>=1 and d the multi-index list is duplicate-free and contains exactly the index vectors of length N and sum d; the identity sum_j Gamma[i,j] ray_j^alpha = delta(i,alpha) is proved by '
+         'the Lean kernel in exact rational arithmetic for 20 table entries (N,d) (23 in the thorough tier incl. (4,4),(3,5),(5,3)). The identity for unbounded (N,d) is not proved (partial) - the property asks for '
+         'exhaustive exploration up to a bound. The real gamma/generate_Gamma_and_rays/increment/multi_index_binomial are compared with the exact model for every (N,d) of the table, all index pairs.')),
+ 'C17': dict(
+   technique='Lean 4 theorems (round trips on lists/index maps, Equiv.Perm sign of the pivot permutation) + exhaustive pivot enumeration in the correspondence',
+   text=('Theorems for all sizes: shift round trips (and shift 0 = id), vecsym(symvec A)=A for all three storage conventions and symvec(vecsym v)=v for all N, base/dirs <-> polynomial round trip for all shapes/D/P, '
+         'sign and determinant of the pivot permutation = (-1)^#{i: piv i != i} for all N and all pivot vectors. The bridge from the list-level pivot model to the permutation, as_utpm and combine_blocks are '
+         'tied by correspondence/oracle only (partial); all pivot vectors for N<=4 (quick) / N<=5 (thorough) are enumerated against scipy.linalg.lu_factor.')),
 }
 _todo = 'check under construction in this session: Lean model/theorems and correspondence not committed yet'
 NOT_APPLICABLE = {('C%02d' % i): _todo for i in range(1, 18)}
